@@ -640,6 +640,21 @@ pub fn stress_shapes(thorough: bool) -> Vec<(String, Vec<u8>)> {
         b.extend(frame_bytes(&chunks, 100));
         v.push((format!("nested-groups-{}", depth), b));
     }
+    // a deep chain followed by layers at small non-zero levels (the parent search has to climb back up)
+    for depth in [30000usize, 65534] {
+        let mut chunks = vec![];
+        for i in 0..depth {
+            chunks.push(simple_layer(i as u16, LayerKind::Group, 1));
+        }
+        chunks.push(simple_layer(1, LayerKind::Image, 1));
+        chunks.push(simple_layer(2, LayerKind::Image, 1));
+        chunks.push(simple_layer(1, LayerKind::Group, 0));
+        chunks.push(simple_layer(2, LayerKind::Image, 1));
+        chunks.push(image_cel((depth + 3) as u16, 1, 1, vec![255, 0, 0, 255], None));
+        let mut b = header_bytes(1, 2, 2, 32);
+        b.extend(frame_bytes(&chunks, 100));
+        v.push((format!("nested-groups-{}-then-shallow", depth), b));
+    }
     // flat siblings at level 1 under one group (quadratic parent search)
     {
         let n = if thorough { 65535 } else { 8000 };
@@ -1206,6 +1221,58 @@ pub fn campaign(run: &mut Run, focus: Focus) {
         }
     }
 
+    // (B3) the path-based entry point (AsepriteFile::read_file): every base file with its header
+    // file-size field set to each boundary value, and the unmodified base
+    if focus == Focus::C12 || focus == Focus::C04 {
+        let mut rf: Vec<(usize, Option<u64>)> = vec![];
+        for (bi, (_, bytes, _)) in bases.iter().enumerate() {
+            rf.push((bi, None));
+            let orig = u32::from_le_bytes([bytes[0], bytes[1], bytes[2], bytes[3]]) as u64;
+            for v in boundary_values(4, orig) {
+                rf.push((bi, Some(v)));
+            }
+            rf.push((bi, Some(bytes.len() as u64 / 2)));
+        }
+        let res = par_chunks(
+            lanes,
+            rf.len() as u64,
+            || (Stats::default(), Vec::<Violation>::new()),
+            |acc, k| {
+                let (bi, val) = rf[k as usize];
+                let (bname, bytes, _) = &bases[bi];
+                let mut b = bytes.clone();
+                if let Some(v) = val {
+                    b[0..4].copy_from_slice(&(v as u32).to_le_bytes());
+                }
+                let v = pool.run((k % lanes as u64) as usize, &b, flags | F_READFILE, k);
+                let ops = vec![format!("read_file:file_size={:?}", val), format!("base:{}", bname)];
+                match judge(focus, &b, &v, &ops, false) {
+                    Ok(mut o) => {
+                        o.hash ^= 0xF11E;
+                        o.labels.retain(|l| !l.starts_with("op:"));
+                        o.labels.push("entry:read_file".into());
+                        acc.0.record(&o)
+                    }
+                    Err(fl) => {
+                        acc.0.evaluations += 1;
+                        if acc.1.len() < 2 && !acc.1.iter().any(|x| x.failure.signature == fl.signature) {
+                            acc.1.push(Violation { case: json!({"hex": hex(&b), "ops": ops, "read_file": true}), failure: fl });
+                        }
+                    }
+                }
+            },
+        );
+        for (st, viols) in res {
+            run.stats.merge(st);
+            for v in viols {
+                if !run.is_known(&v.failure.signature) && run.violations.len() < 8 && !run.violations.iter().any(|x| x.failure.signature == v.failure.signature) {
+                    run.violations.push(v);
+                }
+            }
+        }
+        run.extra.insert("read_file_inputs".into(), json!(rf.len()));
+    }
+
     // (C) stress shapes
     pool.set_timeout(120_000);
     let shapes = stress_shapes(thorough);
@@ -1241,7 +1308,7 @@ pub fn campaign(run: &mut Run, focus: Focus) {
     }
     // (C2) unoptimised build (profile dev0: opt-level 0 for the library, overflow checks and debug
     // assertions on): stress shapes, chunk-boundary truncations and a fixed sample of hostile tapes
-    if thorough && focus == Focus::C04 {
+    if focus == Focus::C04 {
         let exe = format!("{}/dev0/vcheck", target_dir());
         if std::path::Path::new(&exe).exists() {
             let p0 = Pool::with_exe(lanes, Some(exe));
@@ -1269,7 +1336,7 @@ pub fn campaign(run: &mut Run, focus: Focus) {
                     run.direct(|| json!({"shape": name, "profile": "dev0", "hex": if b.len() < 4000 { hex(b) } else { String::new() }}), r);
                 }
             }
-            let sample = 20_000u64;
+            let sample = if thorough { 20_000u64 } else { 1_500 };
             let res = par_chunks(
                 lanes,
                 sample,
@@ -1336,6 +1403,7 @@ pub fn replay_bytes(focus: Focus, case: &Value) -> CheckResult {
     pool.set_timeout(300_000);
     let v = pool.run(0, &bytes, flags_for(focus), 1);
     println!("verdict: {}", describe(&v));
+    let v = if case.get("read_file").and_then(|b| b.as_bool()).unwrap_or(false) { pool.run(0, &bytes, flags_for(focus) | F_READFILE, 1) } else { v };
     judge(focus, &bytes, &v, &["replay".to_string()], false)
 }
 
